@@ -294,6 +294,9 @@ func (t *tailSession) run(onDoc func(c *QRCase, body []byte)) error {
 
 // checkQR is the oracle for one case.
 func checkQR(c *QRCase, body []byte) *Bad {
+	if b := rawUTF8(c.Endpoint, body); b != nil {
+		return b
+	}
 	doc, err := parseOne(body)
 	if err != nil {
 		return bad(jsonErrClass(c), "%s: body is not one JSON value (%v): %s", c.Endpoint, err, snippet(body))
